@@ -1,9 +1,9 @@
 from vrun import Query
 SRC = 'C01_btree.cpp'
 CN = ['set', 'multiset', 'map', 'multimap']
-PN = {0: 'empty tree', 1: 'two levels (6 ascending keys)', 2: 'leaves at minimum fill after erasures', 3: 'three levels (ascending inserts)', 4: 'descending inserts', 5: 'bulk-loaded at an exact capacity multiple', 6: 'duplicate run spanning leaves'}
+PN = {0: 'empty tree', 1: 'two levels (6 ascending keys)', 2: 'leaves at minimum fill after erasures', 3: 'three levels (ascending inserts)', 4: 'descending inserts', 5: 'bulk-loaded at an exact capacity multiple', 6: 'duplicate run spanning leaves', 7: 'run of three equivalent keys crossing a leaf boundary', 8: 'single entry (root leaf)'}
 
-LEVELS = {0: 1, 1: 2, 2: 2, 3: 3, 4: 2, 5: 2, 6: 2}   # tree height reached by each prefix script; recursion bound = re-entries needed, +1 per further symbolic operation (root split), +1 for verify() after a split
+LEVELS = {0: 1, 1: 2, 2: 2, 3: 3, 4: 2, 5: 2, 6: 2, 7: 2, 8: 1}   # tree height reached by each prefix script; recursion bound = re-entries needed, +1 per further symbolic operation (root split), +1 for verify() after a split
 
 OPN = {0: ['insert', 'erase(key)', 'erase_one(key)', 'erase(iterator from lower_bound)'], 1: ['copy-construct', 'assign', 'swap', 'clear', 'bulk_load of a symbolic sorted range', 'copy + insert + compare']}
 
@@ -24,17 +24,19 @@ def mk(prop, cont, leaf, inner, bins, pre, ops, group, quick, gt=False, opk=None
 def build(prop):
     qs = []
     # quick: (4,4), one symbolic operation per query with the operation kind enumerated by the spec (each kind is its own SAT query)
-    for cont, pre in ((0, 1), (1, 1), (0, 2), (1, 6)):
+    for cont, pre in ((0, 1), (1, 1), (0, 2), (1, 6), (1, 7)):
         for opk in (0, 1, 2):
+            if (pre, opk) == (6, 1): continue      # erase(key) of a 7-fold run: measured memory-out at 30 GB; the 3-fold run (prefix 7) is used instead, the long run is in the thorough tier
             qs.append(mk(prop, cont, 4, 4, 0, pre, 1, 0, True, opk=opk))
     qs.append(mk(prop, 0, 4, 4, 0, 1, 1, 0, True, opk=3))
     qs.append(mk(prop, 1, 4, 4, 0, 2, 1, 0, True, opk=3))
+    for opk in (0, 1, 2, 3): qs.append(mk(prop, 0, 4, 4, 0, 8, 1, 0, True, opk=opk))      # emptying the tree and growing the first leaf
     for opk in (0, 1, 2): qs.append(mk(prop, 0, 4, 4, 1, 1, 1, 0, True, opk=opk))          # binary in-node search
-    for opk in (0, 2): qs.append(mk(prop, 3, 4, 4, 0, 6, 1, 0, True, opk=opk))            # multimap, duplicate run
+    for opk in (0, 2): qs.append(mk(prop, 3, 4, 4, 0, 7, 1, 0, True, opk=opk))            # multimap, duplicate run (the 7-fold run of prefix 6: measured time-out at 3600 s, thorough tier)
     for opk in (0, 1, 2, 3, 4, 5): qs.append(mk(prop, 2, 4, 4, 0, 1, 1, 1, True, opk=opk))  # map: whole-tree operations
     # thorough: containers x capacity pairs x both searches x scripts, one operation kind per query; two symbolic operations for (4,4)
     for cont in range(4):
-        for pre in (0, 1, 2, 3, 4, 5, 6):
+        for pre in (0, 1, 2, 3, 4, 5, 6, 7):
             for opk in (0, 1, 2, 3): qs.append(mk(prop, cont, 4, 4, 0, pre, 1, 0, False, opk=opk))
     for cont in (0, 2):
         for pre in (1, 5):
